@@ -29,7 +29,7 @@ func init() {
 
 var atomSamples = map[string][]string{
 	"alnum": {"a", "abc", "aB_1"}, "graphic": {"#", "&&", "@>>", "\\"}, "solo": {"!", ";"}, "quoted_plain": {"hello world", "A", "_x", "1a"},
-	"quoted_escape": {"it's", "a\\b", "line\nbreak", "tab\there", "''", "/*"}, "empty": {""}, "non_ascii": {"é", "日本", "naïve", "Ωmega"},
+	"quoted_escape": {"it's", "a\\b", "line\nbreak", "tab\there", "''", "/*"}, "empty": {""}, "non_ascii": {"é", "日本", "naïve", "Ωmega"}, "graphic_unicode": {"∅", "≤", "∀", "⨁", "∀≤", "⊥+"},
 	"op_prefix": {"\\+", "?-", "fy1"}, "op_infix": {"=", "is", "mod", "-->", "xfx1", "=.."}, "op_postfix": {"xf1", "yf1"}, "op_both": {"-", "+"},
 	"comma": {","}, "bar": {"|"}, "nil": {"[]"}, "curly": {"{}"}, "user_prefix": {"fy1", "fx1"}, "user_infix": {"xfx1", "xfy1", "yfx1"},
 }
@@ -41,14 +41,14 @@ var numSamples = map[string][]interface{}{
 }
 
 var opNames = map[string]string{"minus": "-", "plus": "+", "naf": "\\+", "user_fy": "fy1", "user_fx": "fx1", "colondash": ":-", "eq": "=", "comma": ",", "semicolon": ";", "arrow": "->",
-	"caret": "^", "is": "is", "user_xfx": "xfx1", "user_xfy": "xfy1", "user_yfx": "yfx1", "bar": "|", "user_xf": "xf1", "user_yf": "yf1"}
+	"caret": "^", "is": "is", "user_xfx": "xfx1", "user_xfy": "xfy1", "user_yfx": "yfx1", "bar": "|", "user_xf": "xf1", "user_yf": "yf1", "user_gfy": "∀", "user_gxfx": "≤"}
 
 var tableOps = map[string][]string{
 	"default":    {},
-	"user_ops":   {"op(200, xfy, xfy1)", "op(400, yfx, yfx1)", "op(700, xfx, xfx1)", "op(100, xf, xf1)", "op(150, yf, yf1)", "op(300, fy, fy1)", "op(650, fx, fx1)"},
+	"user_ops":   {"op(200, xfy, xfy1)", "op(400, yfx, yfx1)", "op(700, xfx, xfx1)", "op(100, xf, xf1)", "op(150, yf, yf1)", "op(300, fy, fy1)", "op(650, fx, fx1)", "op(200, fy, ∀)", "op(700, xfx, ≤)"},
 	"minus_weak": {"op(900, fy, -)", "op(700, xfx, -)", "op(200, xfy, xfy1)", "op(1000, fy, fy1)"},
 	"eq_removed": {"op(0, xfx, =)", "op(0, fy, \\+)", "op(700, xfx, xfx1)", "op(100, yf, yf1)"},
-	"comma_like": {"op(1000, xfy, xfy1)", "op(1150, fx, fx1)", "op(1100, xfy, '|')", "op(999, yfx, yfx1)", "op(1200, xfx, xfx1)", "op(1001, fy, fy1)", "op(1200, xf, xf1)"},
+	"comma_like": {"op(1000, xfy, xfy1)", "op(1150, fx, fx1)", "op(1100, xfy, '|')", "op(999, yfx, yfx1)", "op(1200, xfx, xfx1)", "op(1001, fy, fy1)", "op(1200, xf, xf1)", "op(1105, fy, ∀)", "op(1000, xfx, ≤)"},
 }
 
 type rtBuilder struct {
